@@ -307,6 +307,39 @@ pub fn random_modules(seed: u64, n_conf: usize, n_rt: usize) -> Vec<ZooModule> {
     out
 }
 
+/// Member names that contain each other: the generated code finds the member in front of the
+/// extension marker by name (`extensible_after(<name>)`), so an earlier root member whose name
+/// contains the last root member's name (and the other way round, and a common prefix) must not
+/// move the marker. One module with the four extensible kinds in three naming patterns each.
+pub fn name_containment_module() -> ZooModule {
+    let patterns: [[&str; 3]; 3] = [["red-dark", "red", "blue"], ["flag", "flag-extra", "more"], ["value-list", "value", "value-x"]];
+    let mut defs = Vec::new();
+    for (k, [a, b, ext]) in patterns.iter().enumerate() {
+        defs.push(Def { name: format!("NcEnum{k}"), tag: None, ty: Type::Enumerated { items: vec![(a.to_string(), None), (b.to_string(), None), (ext.to_string(), None)], root: Some(2) } });
+        defs.push(Def {
+            name: format!("NcChoice{k}"),
+            tag: None,
+            ty: Type::Choice { alts: vec![Alt { name: a.to_string(), tag: None, ty: Type::Boolean }, Alt { name: b.to_string(), tag: None, ty: Type::int(0, 255) }, Alt { name: ext.to_string(), tag: None, ty: Type::Null }], root: Some(2) },
+        });
+        let comps = vec![comp(a, Type::Boolean, Presence::Mandatory), comp(b, Type::int(0, 255), Presence::Optional), comp(ext, Type::Boolean, Presence::Optional)];
+        defs.push(Def { name: format!("NcSeq{k}"), tag: None, ty: Type::Sequence(Fields { comps: comps.clone(), root: Some(2) }) });
+        defs.push(Def { name: format!("NcSet{k}"), tag: None, ty: Type::Set(Fields { comps, root: Some(2) }) });
+    }
+    ZooModule { module: Module::simple("NameContainment", defs), conformance: true, group: "names".into(), meta: serde_json::Value::Null }
+}
+
+/// families added to the frozen fixed zoo after it was frozen (`zoogen <dir> append-extra`)
+pub fn extra_modules() -> Vec<ZooModule> {
+    let mut out = Vec::new();
+    for p in C05_EXTRA_PAIRS {
+        let (a, b) = c05_pair(p);
+        out.push(a);
+        out.push(b);
+    }
+    out.push(name_containment_module());
+    out
+}
+
 pub const FIXED_SEED: u64 = 20260925;
 
 pub fn fixed_zoo() -> Vec<ZooModule> {
